@@ -22,6 +22,9 @@ func tconfV(cfg e2eConfig) L {
 		panic(err)
 	}
 	svc := desc.(protoreflect.ServiceDescriptor)
+	if cfg.Idem {
+		svc = idemServiceDesc(cfg.Service)
+	}
 	protocols := cfg.Protocols
 	if protocols == nil {
 		protocols = []vanguard.Protocol{vanguard.ProtocolConnect, vanguard.ProtocolGRPC, vanguard.ProtocolGRPCWeb}
